@@ -1,4 +1,70 @@
-(* Proofs/SimRel.v -- header comment is completed at the end of the file's development. *)
+(* Proofs/SimRel.v -- three whole-renderer theorems obtained from ONE generic lock-step simulation
+   of two runs of render_node.  No axioms (every main theorem is followed by Print Assumptions).
+
+   METHOD (sections 0-3).  Compose.v section 1 generalised in three directions:
+     (1) the outcome relation `rs md` has three modes:  MLe (run 1 Ok => run 2 Ok and related; no
+         claim when run 1 fails),  MStrict (the same outcome kind, the same Panic site),
+         MNtn (run 1 is never TooNarrow; related when Ok);
+     (2) the two runs render two TREES related node by node (`trel TI SOK`: the same shape,
+         attributes and styles, every style satisfying SOK, text leaves related by TI);
+     (3) the operations of the sub-renderer respect a relation SR (record `GOps`, ~40 fields).
+   `gnode_all : trel TI SOK n1 n2 -> gnode n1 n2` (induction with RenderWidth.rnode_ind' on the
+   left tree, inversion of trel) and `g_render_tree` (render_tree, footnote list included).
+   The size estimates of related trees agree (`est_rel`) and are never TooNarrow (`est_ntn`).
+
+   PART A -- C11, third clause (section 4).   SR = RA: run 2 has the options of run 1 with
+   allow_width_overflow set; its sub-renderers are `ovs` of those of run 1 (the same fields,
+   options with the flag, pending wrapped block with the flag).  Mode MLe, the same tree.
+     c11_overflow_noop_render :
+       render_tree d mw o1 width tree = Ok s1 ->
+       render_tree d mw (with_overflow o1) width tree = Ok (ovs s1) /\
+       (forall ls, sub_into_lines s1 = Ok ls -> sub_into_lines (ovs s1) = Ok ls)
+     (c11_overflow_noop_render2: the same for o1, o2 with same_but_overflow o1 o2),
+     c11_lines_from_read, c11_string_from_read :
+       <route> inl dr c doc w = Ok r -> <route> inl dr (set_overflow c) doc w = Ok r.
+   No hypothesis at all (not even o_allow_overflow o1 = false: with the flag already set nothing
+   changes).  Wrapped-block level from OptionRel (`wb_add_text_sim`, `wb_into_lines_sim`).
+   REMARK: the unconditional equation `sub_into_lines s2 = sub_into_lines s1` is FALSE:
+   render_tree leaves the last word pending, and its flush can be TooNarrow without the flag and
+   Ok with it (`exa_pending_flush`); the routes flush, so their statement is the plain one.
+
+   PART A -- C11, fourth clause (section 6).  SR = SRN (diagonal: the same sub-renderer, whose
+   options and pending wrapped block allow overflow), mode MNtn.
+     c11_overflow_never_too_narrow_render :
+       o_allow_overflow o = true ->
+       rn (fun s => sub_into_lines s <> TooNarrow /\ sub_into_string s <> TooNarrow)
+          (render_tree d mw o width tree)           (rn P r: r is not TooNarrow, P when Ok)
+     for EVERY width (0 included), tree and decorator; c11_routes_never_too_narrow (routes,
+     width <> 0, given to_render_tree = Ok tree).  With RenderTotal (C01: Ok or TooNarrow under
+     its side conditions): c11_overflow_always_ok, c11_routes_always_ok -- always Ok.
+     In the model TooNarrow arises in exactly three places: Sub.width_minus (only without the
+     flag), Wrap.hw_scan (only without the flag), Api.render_with_context (width 0).  So the
+     clause "always Ok for width >= 1" holds; there is no counterexample.
+
+   PART B -- C13 (section 5).  `normalise` collapses every maximal run of whitespace characters
+   (leading / trailing runs too) to one canonical space; `norm_tree` normalises every text leaf;
+   ws_equiv t1 t2 := norm_tree t1 = norm_tree t2.   SR = SRB (diagonal: the same sub-renderer,
+   with an empty white-space mode stack), mode MStrict, trees n and norm_tree n.
+     c13_norm_render    : tree_ok tree = true ->
+                          render_tree d mw o width (norm_tree tree) = render_tree d mw o width tree
+     c13_ws_equiv_render: ws_equiv t1 t2 -> tree_ok t1 = true -> tree_ok t2 = true ->
+                          render_tree d mw o width t1 = render_tree d mw o width t2
+     (the very same outcome: Ok with the same sub-renderer -- hence the same lines and string,
+     c13_ws_equiv_lines --, TooNarrow, or the same Panic site; c13_render_with_context).
+   TABLES ARE INCLUDED (the estimates that drive the column widths agree: `text_est_norm` --
+   text_est depends only on the normal form, so there is no finding here).
+   SIDE CONDITION tree_ok (decidable), both parts needed (examples exc_pre_differs,
+   exc_digit_differs):
+     (a) no style of the tree (nodes, table rows, cells) has white-space: pre / pre-wrap
+         (`style_no_pre`; a <pre> element carries such a style): there whitespace is kept;
+     (b) `wfd`: no character of a text leaf is both whitespace and an ASCII digit.  True of
+         every Unicode character (char::is_whitespace is false for digits) but not excluded by
+         the model's `chr` record; needed because <sup> turns an all-digit text into superscript
+         digits (Render.sup_digits looks at code points, not at the ws flag).
+   Text level: `add_chars_norm` (from Small.add_char_normal_ws_indep / _idem),
+   `add_inline_text_norm`, `apply_filters_norm` (strikeout filter), `text_est_norm`.
+
+   Examples (non-vacuity): exa_* (Part A), exr_* (routes, on RenderTotal.ex_doc), exc_* (Part B). *)
 From H2T Require Import Base Tagged Wrap Sub Css Dom Render Api.
 From H2T Require Import Proofs.WrapInv Proofs.Small Proofs.RenderWidth Proofs.OptionRel.
 From H2T Require Import Proofs.Compose.
@@ -793,6 +859,7 @@ Section GSim.
     apply Hfmt, Hxy.
   Qed.
 End GSim.
+Print Assumptions g_render_tree.
 
 (* trel is reflexive when TI is and every style is allowed *)
 Lemma trel_refl (TI : text -> text -> Prop) (SOK : cstyle -> Prop) :
@@ -1243,6 +1310,25 @@ Proof.
 Qed.
 Print Assumptions c11_overflow_noop_render.
 
+(* the same for two option records that differ only in the flag *)
+Definition same_but_overflow (o1 o2 : ropts) : Prop :=
+  wrap_width o2 = wrap_width o1 /\ o_pad o2 = o_pad o1 /\ o_raw o2 = o_raw o1 /\
+  o_borders o2 = o_borders o1 /\ o_wrap_links o2 = o_wrap_links o1 /\
+  o_footnotes o2 = o_footnotes o1 /\ o_strike o2 = o_strike o1.
+
+Corollary c11_overflow_noop_render2 d mw o1 o2 width tree s1 :
+  same_but_overflow o1 o2 -> o_allow_overflow o1 = false -> o_allow_overflow o2 = true ->
+  render_tree d mw o1 width tree = Ok s1 ->
+  exists s2, render_tree d mw o2 width tree = Ok s2 /\ s2 = ovs s1 /\
+             (forall ls, sub_into_lines s1 = Ok ls -> sub_into_lines s2 = Ok ls).
+Proof.
+  intros (A & B & C & D & E & F & G) _ Ho2 H.
+  assert (Eo : o2 = with_overflow o1).
+  { destruct o2. unfold with_overflow. cbn in *. congruence. }
+  subst o2. destruct (c11_overflow_noop_render d mw o1 width tree s1 H) as [E2 K]. eauto.
+Qed.
+Print Assumptions c11_overflow_noop_render2.
+
 (* through the public routes: if the route without allow_width_overflow returns Ok, the route
    with it returns the same value.  (No hypothesis `c_overflow c = false` is needed: when the
    flag is already set, set_overflow changes nothing.) *)
@@ -1285,46 +1371,19 @@ Print Assumptions c11_string_from_read.
 (* ---- non-vacuity of Part A ---- *)
 (* the tree of RenderWidth (paragraph, table, ul, ol) at width 12 renders without overflow
    (14 lines): the theorem applies and gives the same 14 lines with overflow allowed *)
+Definition exa_s1 : subr :=
+  match render_tree plain_deco 3 exb_opts 12 ex_tree with Ok s => s | _ => sub_new 0 exb_opts end.
+Example exa_render_eq : render_tree plain_deco 3 exb_opts 12 ex_tree = Ok exa_s1.
+Proof. vm_compute. reflexivity. Qed.
+Example exa_lines : exists ls, sub_into_lines exa_s1 = Ok ls /\ length ls = 14%nat.
+Proof. eexists. split; vm_compute; reflexivity. Qed.
 Example exa_applies :
-  exists s1 ls,
-    render_tree plain_deco 3 exb_opts 12 ex_tree = Ok s1 /\
-    render_tree plain_deco 3 (with_overflow exb_opts) 12 ex_tree = Ok (ovs s1) /\
-    out_of (Ok s1) = Ok ls /\ length ls = 14%nat /\ out_of (Ok (ovs s1)) = Ok ls.
+  render_tree plain_deco 3 (with_overflow exb_opts) 12 ex_tree = Ok (ovs exa_s1) /\
+  exists ls, sub_into_lines exa_s1 = Ok ls /\ length ls = 14%nat /\ sub_into_lines (ovs exa_s1) = Ok ls.
 Proof.
-  destruct (render_tree plain_deco 3 exb_opts 12 ex_tree) as [s1| | |] eqn:E;
-    try (vm_compute in E; discriminate).
-  destruct (c11_overflow_noop_render _ _ _ _ _ _ E) as [E2 K].
-  assert (E' : out_of (render_tree plain_deco 3 exb_opts 12 ex_tree) = out_of (Ok s1)) by (rewrite E; reflexivity).
-  vm_compute in E'. unfold out_of. cbn [bind].
-  destruct (sub_into_lines s1) as [ls0| | |] eqn:El; cbn [out_of bind] in E'; try discriminate.
-  eexists s1, _. split; [reflexivity|]. split; [exact E2|]. split; [reflexivity|].
-  rewrite (K ls0 eq_refl). cbn [bind]. injection E' as E'. rewrite <- E'. split; reflexivity.
-Qed.
-
-(* the statement is one-directional for a reason: <blockquote>ab c d</blockquote> at width 2 is
-   TooNarrow without the flag and Ok with it *)
-Example exa_converse_fails :
-  render_tree plain_deco 3 exb_opts 2 cexb_tree = TooNarrow /\
-  out_of (render_tree plain_deco 3 (with_overflow exb_opts) 2 cexb_tree)
-    = Ok [[62;32;97;98]; [62;32;99;32;100]].
-Proof. split; vm_compute; reflexivity. Qed.
-
-(* why the theorem speaks about successful flushes only: render_tree leaves the last word
-   pending; a width-2 character at width 1 renders Ok without the flag, but its flush
-   (sub_into_lines, done by the routes) is TooNarrow -- with the flag it is Ok.  So
-   `sub_into_lines s2 = sub_into_lines s1` does NOT hold for all successful renderings. *)
-Definition exa_wide : rnode := ex_n (IText [mk 19990 2]).
-Example exa_pending_flush :
-  (exists s1, render_tree plain_deco 3 exb_opts 1 exa_wide = Ok s1 /\ sub_into_lines s1 = TooNarrow) /\
-  out_of (render_tree plain_deco 3 (with_overflow exb_opts) 1 exa_wide) = Ok [[19990]].
-Proof.
-  split; [|vm_compute; reflexivity].
-  destruct (render_tree plain_deco 3 exb_opts 1 exa_wide) as [s1| | |] eqn:E;
-    try (vm_compute in E; discriminate).
-  exists s1. split; [reflexivity|].
-  assert (E' : out_of (render_tree plain_deco 3 exb_opts 1 exa_wide) = out_of (Ok s1)) by (rewrite E; reflexivity).
-  vm_compute in E'. unfold out_of in E'. cbn [bind] in E'.
-  destruct (sub_into_lines s1); cbn [bind] in E'; try discriminate. reflexivity.
+  destruct (c11_overflow_noop_render plain_deco 3 exb_opts 12 ex_tree exa_s1 exa_render_eq) as [E2 K].
+  split; [exact E2|].
+  destruct exa_lines as (ls & E & L). exists ls. split; [exact E|]. split; [exact L|exact (K ls E)].
 Qed.
 
 (* the statement is one-directional for a reason: <blockquote>ab c d</blockquote> at width 2 is
@@ -1347,3 +1406,1204 @@ Example exa_pending_flush :
   render_tree plain_deco 3 exb_opts 1 exa_wide = Ok exa_s1w /\ sub_into_lines exa_s1w = TooNarrow /\
   out_of (render_tree plain_deco 3 (with_overflow exb_opts) 1 exa_wide) = Ok [[19990]].
 Proof. split; [|split]; vm_compute; reflexivity. Qed.
+
+(* ================================================================== *)
+(* 5. PART B (C13): runs of collapsible whitespace                      *)
+(* ================================================================== *)
+
+(* ---- normal form of a text: every maximal run of whitespace characters (leading and
+   trailing runs included) becomes ONE canonical space ---- *)
+Fixpoint norm_loop (in_ws : bool) (t : text) : text :=
+  match t with
+  | [] => []
+  | c :: t' =>
+    if ws c then (if in_ws then norm_loop true t' else space :: norm_loop true t')
+    else c :: norm_loop false t'
+  end.
+Definition normalise (t : text) : text := norm_loop false t.
+
+(* (i) the size estimate depends only on the normal form *)
+Lemma tll_norm : forall t g f len, (g = true -> f = true) ->
+  text_len_loop (norm_loop g t) f len = text_len_loop t f len.
+Proof.
+  induction t as [|c t IH]; intros g f len Hg; cbn [norm_loop text_len_loop]; [reflexivity|].
+  destruct (ws c) eqn:Ec.
+  - destruct g.
+    + rewrite (Hg eq_refl). apply IH. auto.
+    + cbn [text_len_loop]. change (ws space) with true. cbn iota. apply IH. auto.
+  - cbn [text_len_loop]. rewrite Ec. apply IH. discriminate.
+Qed.
+
+Lemma tll_all_ws : forall w f len, all_ws w = true -> text_len_loop w f len = len.
+Proof.
+  induction w as [|c w IH]; intros f len H; cbn [text_len_loop]; [reflexivity|].
+  cbn [all_ws forallb] in H. apply andb_true_iff in H. destruct H as [Hc Hw]. rewrite Hc.
+  apply IH, Hw.
+Qed.
+
+Lemma tll_app_ws : forall x w f len, all_ws w = true ->
+  text_len_loop (x ++ w) f len = text_len_loop x f len.
+Proof.
+  induction x as [|c x IH]; intros w f len H; cbn [app text_len_loop]; [apply tll_all_ws, H|].
+  destruct (ws c); apply IH, H.
+Qed.
+
+Lemma drop_ws_split : forall r, exists p, r = p ++ drop_ws r /\ all_ws p = true.
+Proof.
+  induction r as [|c r (p & E & Hp)]; [exists []; auto|]. cbn [drop_ws]. destruct (ws c) eqn:Ec.
+  - exists (c :: p). cbn [app all_ws forallb]. rewrite Ec. split; [f_equal; exact E|exact Hp].
+  - exists []. auto.
+Qed.
+
+Lemma all_ws_rev p : all_ws p = true -> all_ws (rev p) = true.
+Proof.
+  unfold all_ws. rewrite !forallb_forall. intros H x Hx. apply H, in_rev, Hx.
+Qed.
+
+Lemma tll_trim t f len : text_len_loop (trim t) f len = text_len_loop (drop_ws t) f len.
+Proof.
+  unfold trim. destruct (drop_ws_split (rev (drop_ws t))) as (p & E & Hp).
+  assert (E' : drop_ws t = rev (drop_ws (rev (drop_ws t))) ++ rev p).
+  { rewrite <- rev_app_distr, <- E, rev_involutive. reflexivity. }
+  rewrite E' at 2. rewrite tll_app_ws; [reflexivity|apply all_ws_rev, Hp].
+Qed.
+
+Lemma drop_ws_norm : forall t g, drop_ws (norm_loop g t) = norm_loop false (drop_ws t).
+Proof.
+  induction t as [|c t IH]; intros g; cbn [norm_loop drop_ws]; [reflexivity|].
+  destruct (ws c) eqn:Ec.
+  - destruct g; [apply IH|]. cbn [drop_ws]. change (ws space) with true. cbn iota. apply IH.
+  - cbn [drop_ws norm_loop]. rewrite Ec. reflexivity.
+Qed.
+
+Lemma text_est_norm mw t img : text_est mw (normalise t) img = text_est mw t img.
+Proof.
+  unfold text_est, normalise. rewrite !tll_trim, drop_ws_norm, tll_norm by discriminate.
+  destruct t as [|c t]; cbn [norm_loop]; [reflexivity|].
+  destruct (ws c) eqn:Ec; [change (ws space) with true|rewrite Ec]; reflexivity.
+Qed.
+
+(* a counter-check that the estimate really looks at the normal form only: two texts with the
+   same normal form *)
+Lemma all_ws_norm : forall t g, all_ws (norm_loop g t) = all_ws t.
+Proof.
+  induction t as [|c t IH]; intros g; cbn [norm_loop]; [reflexivity|].
+  unfold all_ws in *. cbn [forallb]. destruct (ws c) eqn:Ec.
+  - destruct g; cbn [forallb andb]; [apply IH|]. change (ws space) with true. cbn [andb]. apply IH.
+  - cbn [forallb]. rewrite Ec. reflexivity.
+Qed.
+
+(* the strikeout filter commutes with normalisation *)
+Lemma filter_strikeout_norm : forall t g,
+  filter_strikeout (norm_loop g t) = norm_loop g (filter_strikeout t).
+Proof.
+  induction t as [|c t IH]; intros g; [reflexivity|].
+  unfold filter_strikeout in *. cbn [norm_loop flat_map]. destruct (ws c) eqn:Ec.
+  - cbn [negb andb app norm_loop]. rewrite Ec.
+    destruct g; [apply IH|]. cbn [flat_map]. change (ws space) with true. cbn [negb andb app].
+    f_equal. apply IH.
+  - cbn [flat_map]. rewrite Ec. cbn [negb andb].
+    destruct (0 <? cw0 c); cbn [app norm_loop]; rewrite Ec; [change (ws strike_chr) with false|];
+      cbn iota; rewrite IH; reflexivity.
+Qed.
+
+Lemma apply_filters_norm : forall n t, apply_filters n (normalise t) = normalise (apply_filters n t).
+Proof.
+  induction n as [|n IH]; intros t; cbn [apply_filters]; [reflexivity|].
+  unfold normalise in *. rewrite filter_strikeout_norm. apply IH.
+Qed.
+
+(* (ii) in normal white-space mode the wrapped block cannot tell a text from its normal form *)
+Lemma add_chars_norm t1 t2 : forall s g st,
+  (g = true -> exists b u c, ws c = true /\ add_char WsNormal t1 t2 (b, u) c = Ok st) ->
+  add_chars WsNormal t1 t2 st (norm_loop g s) = add_chars WsNormal t1 t2 st s.
+Proof.
+  induction s as [|c s IH]; intros g st Hg; cbn [norm_loop add_chars]; [reflexivity|].
+  destruct (ws c) eqn:Ec.
+  - destruct g.
+    + destruct (Hg eq_refl) as (b & u & c0 & Hc0 & E0).
+      rewrite (add_char_normal_ws_idem t1 t2 b u c0 c st Hc0 Ec E0). cbn [bind].
+      apply IH. intros _. exists b, u, c0. auto.
+    + cbn [add_chars]. rewrite (add_char_normal_ws_indep t1 t2 st space c eq_refl Ec).
+      destruct (add_char WsNormal t1 t2 st c) as [st'| | |] eqn:E; cbn [bind]; try reflexivity.
+      apply IH. intros _. destruct st as [b u]. exists b, u, c. auto.
+  - cbn [add_chars]. destruct (add_char WsNormal t1 t2 st c) as [st'| | |]; cbn [bind]; try reflexivity.
+    apply IH. discriminate.
+Qed.
+
+Lemma wb_add_text_norm b s t1 t2 :
+  wb_add_text b (normalise s) WsNormal t1 t2 = wb_add_text b s WsNormal t1 t2.
+Proof. unfold wb_add_text, normalise. rewrite add_chars_norm; [reflexivity|discriminate]. Qed.
+
+(* ---- what the sub-renderer operations keep: the white-space mode stack and the options ---- *)
+Definition km (s : subr) : list wsmode * ropts := (ws_stack s, sopts s).
+
+Lemma km_add_line s l : km (add_line s l) = km s.
+Proof. unfold add_line. destruct (pending_frags s); destruct l; reflexivity. Qed.
+
+Lemma km_extend_lines ls : forall s, km (extend_lines s ls) = km s.
+Proof.
+  unfold extend_lines. induction ls as [|l ls IH]; intros s; cbn [fold_left]; [reflexivity|].
+  rewrite IH. apply km_add_line.
+Qed.
+
+Lemma km_flush_wrapping s s' : flush_wrapping s = Ok s' -> km s' = km s.
+Proof.
+  unfold flush_wrapping. destruct (wrapping s) as [w|]; [|intros H; ok_inv H; reflexivity].
+  destruct (take_trailing_fragments w) as [w1 frags]. intros H. bind_inv H ls Hls. ok_inv H.
+  transitivity (km (extend_lines (set_wrapping s None) (map RText ls))); [reflexivity|].
+  rewrite km_extend_lines. reflexivity.
+Qed.
+
+Lemma km_add_empty_line s s' : add_empty_line s = Ok s' -> km s' = km s.
+Proof.
+  unfold add_empty_line. intros H. bind_inv H s1 H1. ok_inv H.
+  transitivity (km (add_line s1 (RText tl_new))); [reflexivity|].
+  rewrite km_add_line. eapply km_flush_wrapping, H1.
+Qed.
+
+Lemma km_start_block s s' : start_block s = Ok s' -> km s' = km s.
+Proof.
+  unfold start_block. intros H. bind_inv H s1 H1. bind_inv H s2 H2. ok_inv H.
+  transitivity (km s2); [reflexivity|].
+  transitivity (km s1); [|eapply km_flush_wrapping, H1].
+  destruct (existsb rline_has_content (slines s1)).
+  - eapply km_add_empty_line, H2.
+  - ok_inv H2. reflexivity.
+Qed.
+
+Lemma km_new_line_hard s s' : new_line_hard s = Ok s' -> km s' = km s.
+Proof.
+  unfold new_line_hard. intros H. destruct (wrapping s) as [w|].
+  - destruct ((wordlen w =? 0) && (tlen_ (wline w) =? 0)).
+    + eapply km_add_empty_line, H.
+    + eapply km_flush_wrapping, H.
+  - eapply km_add_empty_line, H.
+Qed.
+
+Lemma km_add_horizontal_line s b t s' : add_horizontal_line s b t = Ok s' -> km s' = km s.
+Proof.
+  unfold add_horizontal_line. intros H. bind_inv H s1 H1. ok_inv H.
+  rewrite km_add_line. eapply km_flush_wrapping, H1.
+Qed.
+
+Lemma km_hborder s w s' : add_horizontal_border_width s w = Ok s' -> km s' = km s.
+Proof.
+  unfold add_horizontal_border_width. intros H. bind_inv H s1 H1. ok_inv H.
+  rewrite km_add_line. eapply km_flush_wrapping, H1.
+Qed.
+
+Lemma km_add_inline_text d s t s' : add_inline_text d s t = Ok s' -> km s' = km s.
+Proof.
+  unfold add_inline_text. intros H.
+  destruct (negb (preserve_ws (ws_mode s)) && at_block_end s && all_ws t); [ok_inv H; reflexivity|].
+  bind_inv H s1 H1. bind_inv H w1 Hw1. ok_inv H.
+  transitivity (km s1); [reflexivity|].
+  destruct (at_block_end s); [eapply km_start_block, H1|ok_inv H1; reflexivity].
+Qed.
+
+Lemma km_start_deco d s p s' : start_deco d s p = Ok s' -> km s' = km s.
+Proof. unfold start_deco. intros H. apply km_add_inline_text in H. rewrite H. reflexivity. Qed.
+
+Lemma km_end_deco d s e s' : end_deco d s e = Ok s' -> km s' = km s.
+Proof.
+  unfold end_deco. intros H. bind_inv H s1 H1. ok_inv H. apply km_add_inline_text in H1.
+  rewrite <- H1. reflexivity.
+Qed.
+
+Lemma km_start_strikeout d s s' : start_strikeout d s = Ok s' -> km s' = km s.
+Proof.
+  unfold start_strikeout. intros H. bind_inv H s1 H1. ok_inv H. apply km_start_deco in H1.
+  rewrite <- H1. destruct (o_strike (sopts s1)); reflexivity.
+Qed.
+
+Lemma km_end_strikeout d s s' : end_strikeout d s = Ok s' -> km s' = km s.
+Proof.
+  unfold end_strikeout. intros H. bind_inv H s1 H1. apply km_end_deco in H. rewrite H.
+  destruct (o_strike (sopts s)); [|ok_inv H1; reflexivity].
+  destruct (filter_depth s) as [|n]; [discriminate|]. ok_inv H1. reflexivity.
+Qed.
+
+Lemma km_add_image d s src title s' : add_image d s src title = Ok s' -> km s' = km s.
+Proof.
+  unfold add_image. intros H. bind_inv H s1 H1. ok_inv H. apply km_add_inline_text in H1.
+  transitivity (km s1); [reflexivity|]. rewrite H1. reflexivity.
+Qed.
+
+Lemma km_append_subrender s other first rest s' :
+  append_subrender s other first rest = Ok s' -> km s' = km s.
+Proof.
+  unfold append_subrender. intros H. bind_inv H s1 H1. bind_inv H ols H2. ok_inv H.
+  rewrite km_extend_lines. eapply km_flush_wrapping, H1.
+Qed.
+
+Lemma km_row_lines t draw sets pads : forall n i s, km (row_lines t draw n i sets pads s) = km s.
+Proof.
+  induction n as [|n IH]; intros i s; cbn [row_lines]; [reflexivity|].
+  rewrite IH. apply km_add_line.
+Qed.
+
+Lemma km_append_columns s cols collapse s' :
+  append_columns_with_borders s cols collapse = Ok s' -> km s' = km s.
+Proof.
+  unfold append_columns_with_borders. intros H. bind_inv H s1 H1. bind_inv H sets H2.
+  bind_inv H chk H3.
+  destruct (match olast (slines s1) with
+            | Some (RLine pb pt) =>
+              let '(p, n) := join_cols (map fst sets) pb
+                               (border_new (sumN (map fst sets) + (N.of_nat (length sets) - 1))) 0 in
+              (Some p, n)
+            | _ => (None, border_new (sumN (map fst sets) + (N.of_nat (length sets) - 1)))
+            end) as [prev1 next1].
+  bind_inv H r H4. destruct r as [[[prev3 next3] sets4] pads]. ok_inv H.
+  apply km_flush_wrapping in H1. rewrite <- H1.
+  match goal with |- km (if ?c then _ else _) = _ => destruct c end;
+    rewrite ?km_add_line, km_row_lines; reflexivity.
+Qed.
+
+Lemma km_vert_cols : forall cols s first s', vert_cols s cols first = Ok s' -> km s' = km s.
+Proof.
+  induction cols as [|c cols IH]; intros s first s' H; cbn [vert_cols] in H; [ok_inv H; reflexivity|].
+  bind_inv H s1 H1. bind_inv H s2 H2. apply IH in H. rewrite H.
+  apply km_append_subrender in H2. rewrite H2.
+  destruct (negb first && o_borders (sopts s)).
+  - eapply km_add_horizontal_line, H1.
+  - ok_inv H1. reflexivity.
+Qed.
+
+Lemma km_append_vert_row s cols s' : append_vert_row s cols = Ok s' -> km s' = km s.
+Proof.
+  unfold append_vert_row. intros H. bind_inv H s1 H1. bind_inv H s2 H2.
+  apply km_flush_wrapping in H1. apply km_vert_cols in H2.
+  destruct (o_borders (sopts s2)).
+  - apply km_hborder in H. congruence.
+  - ok_inv H. congruence.
+Qed.
+
+Lemma km_fmt_links : forall links s, km (fmt_links s links) = km s.
+Proof.
+  assert (K1 : forall t cs s buf wl pos, km (fst (fst (fst (fl_chars s t cs buf wl pos)))) = km s).
+  { intros t. induction cs as [|c cs IH]; intros s buf wl pos; cbn [fl_chars]; [reflexivity|].
+    destruct (swidth_ s <? pos + cw0 c); rewrite IH; [apply km_add_line|reflexivity]. }
+  assert (K2 : forall strs s wl pos, km (fst (fl_strings s strs wl pos)) = km s).
+  { induction strs as [|[str tg] strs IH]; intros s wl pos; cbn [fl_strings]; [reflexivity|].
+    destruct (o_wrap_links (sopts s) && (swidth_ s <? pos + swidth (nl_to_space str))).
+    - pose proof (K1 [ADefault] (nl_to_space str) s [] wl pos) as E.
+      destruct (fl_chars s [ADefault] (nl_to_space str) [] wl pos) as [[[s1 buf] wl1] pos1].
+      cbn [fst] in E. rewrite IH. exact E.
+    - apply IH. }
+  induction links as [|l links IH]; intros s; cbn [fmt_links]; [reflexivity|].
+  pose proof (K2 (tl_tagged_strings l) s tl_new 0) as E.
+  destruct (fl_strings s (tl_tagged_strings l) tl_new 0) as [s1 wl]. cbn [fst] in E.
+  rewrite IH, km_add_line. exact E.
+Qed.
+
+Lemma km_ws s s' : km s' = km s -> ws_stack s' = ws_stack s.
+Proof. unfold km. congruence. Qed.
+
+Lemma add_inline_text_norm d s t :
+  ws_stack s = [] -> add_inline_text d s (normalise t) = add_inline_text d s t.
+Proof.
+  intros Hw. unfold add_inline_text, ws_mode. rewrite Hw. unfold normalise at 1. rewrite all_ws_norm.
+  cbn [preserve_ws negb andb].
+  destruct (at_block_end s && all_ws t); [reflexivity|].
+  assert (K : forall s1, ws_stack s1 = [] ->
+    (do w1 <- wb_add_text (get_wrapping s1) (apply_filters (filter_depth s1) (normalise t))
+                match ws_stack s1 with m :: _ => m | [] => WsNormal end
+                (if 0 <? pre_depth s1 then ann_stack s1 ++ [d_pre_first d] else ann_stack s1)
+                (if 0 <? pre_depth s1 then ann_stack s1 ++ [d_pre_cont d] else ann_stack s1);
+     Ok (set_wrapping s1 (Some w1))) =
+    (do w1 <- wb_add_text (get_wrapping s1) (apply_filters (filter_depth s1) t)
+                match ws_stack s1 with m :: _ => m | [] => WsNormal end
+                (if 0 <? pre_depth s1 then ann_stack s1 ++ [d_pre_first d] else ann_stack s1)
+                (if 0 <? pre_depth s1 then ann_stack s1 ++ [d_pre_cont d] else ann_stack s1);
+     Ok (set_wrapping s1 (Some w1)))).
+  { intros s1 E. rewrite E, apply_filters_norm, wb_add_text_norm. reflexivity. }
+  destruct (at_block_end s).
+  - destruct (start_block s) as [s1| | |] eqn:E; cbn [bind]; try reflexivity.
+    apply K. rewrite (km_ws _ _ (km_start_block _ _ E)). exact Hw.
+  - cbn [bind]. apply K, Hw.
+Qed.
+
+(* ---- trees: normal form, side condition ---- *)
+(* no style of the tree switches to a preserving white-space mode (white-space: pre / pre-wrap;
+   a <pre> element carries such a style) *)
+Definition style_no_pre (cs : cstyle) : bool :=
+  match wsm_of cs with None => true | Some _ => false end.
+(* no character is both whitespace and an ASCII digit (char::is_whitespace is false for
+   digits; the model's `chr` record does not exclude it) *)
+Definition wfd (t : text) : bool := forallb (fun c => negb (ws c && is_ascii_digit c)) t.
+
+Fixpoint norm_tree (n : rnode) : rnode :=
+  let ncell (c : rcell) := match c with RCell k cs s => RCell k (map norm_tree cs) s end in
+  let nrow (r : rrow) := match r with RRow cells s => RRow (map ncell cells) s end in
+  match n with
+  | RN i s =>
+    RN (match i with
+        | IText t => IText (normalise t)
+        | IContainer cs => IContainer (map norm_tree cs)
+        | ILink h cs => ILink h (map norm_tree cs)
+        | IEm cs => IEm (map norm_tree cs)
+        | IStrong cs => IStrong (map norm_tree cs)
+        | IStrikeout cs => IStrikeout (map norm_tree cs)
+        | ICode cs => ICode (map norm_tree cs)
+        | IImg a b => IImg a b
+        | IBlock cs => IBlock (map norm_tree cs)
+        | IHeader l cs => IHeader l (map norm_tree cs)
+        | IDiv cs => IDiv (map norm_tree cs)
+        | IBlockQuote cs => IBlockQuote (map norm_tree cs)
+        | IUl cs => IUl (map norm_tree cs)
+        | IOl z cs => IOl z (map norm_tree cs)
+        | IDl cs => IDl (map norm_tree cs)
+        | IDt cs => IDt (map norm_tree cs)
+        | IDd cs => IDd (map norm_tree cs)
+        | IBreak => IBreak
+        | ITable rows nc => ITable (map nrow rows) nc
+        | ITableBody rows => ITableBody (map nrow rows)
+        | ITableRow r => ITableRow (nrow r)
+        | ITableCell c => ITableCell (ncell c)
+        | IFragStart nm => IFragStart nm
+        | IListItem cs => IListItem (map norm_tree cs)
+        | ISup cs => ISup (map norm_tree cs)
+        end) s
+  end.
+
+Definition norm_cell (c : rcell) : rcell :=
+  match c with RCell k cs s => RCell k (map norm_tree cs) s end.
+Definition norm_row (r : rrow) : rrow :=
+  match r with RRow cells s => RRow (map norm_cell cells) s end.
+
+(* decidable side condition of Part B *)
+Fixpoint tree_ok (n : rnode) : bool :=
+  let ok_cell (c : rcell) := match c with RCell _ cs s => style_no_pre s && forallb tree_ok cs end in
+  let ok_row (r : rrow) := match r with RRow cells s => style_no_pre s && forallb ok_cell cells end in
+  match n with
+  | RN i s =>
+    style_no_pre s &&
+    match i with
+    | IText t => wfd t
+    | IImg _ _ | IBreak | IFragStart _ => true
+    | IContainer cs | ILink _ cs | IEm cs | IStrong cs | IStrikeout cs | ICode cs | IBlock cs
+    | IHeader _ cs | IDiv cs | IBlockQuote cs | IUl cs | IOl _ cs | IDl cs | IDt cs | IDd cs
+    | IListItem cs | ISup cs => forallb tree_ok cs
+    | ITable rows _ => forallb ok_row rows
+    | ITableBody _ | ITableRow _ | ITableCell _ => true
+    end
+  end.
+
+Definition ok_cell (c : rcell) : bool :=
+  match c with RCell _ cs s => style_no_pre s && forallb tree_ok cs end.
+Definition ok_row (r : rrow) : bool :=
+  match r with RRow cells s => style_no_pre s && forallb ok_cell cells end.
+
+Definition TIB (t1 t2 : text) : Prop := t2 = normalise t1 /\ wfd t1 = true.
+Definition SOKB (cs : cstyle) : Prop := wsm_of cs = None.
+
+Lemma style_no_pre_ok s : style_no_pre s = true -> SOKB s.
+Proof. unfold style_no_pre, SOKB. destruct (wsm_of s); [discriminate|reflexivity]. Qed.
+
+Lemma trel_norm : forall n, tree_ok n = true -> trel TIB SOKB n (norm_tree n).
+Proof.
+  apply (rnode_ind' (fun n => tree_ok n = true -> trel TIB SOKB n (norm_tree n))).
+  intros i sty IH Hok.
+  assert (K : forall cs, Forall (fun n => tree_ok n = true -> trel TIB SOKB n (norm_tree n)) cs ->
+                         forallb tree_ok cs = true -> Forall2 (trel TIB SOKB) cs (map norm_tree cs)).
+  { induction cs as [|c cs IHc]; intros HF Hb; cbn [map]; constructor;
+      cbn [forallb] in Hb; apply andb_true_iff in Hb; destruct Hb as [Hb1 Hb2].
+    - apply (Forall_inv HF), Hb1.
+    - apply IHc; [exact (Forall_inv_tail HF)|exact Hb2]. }
+  assert (KC : forall cells,
+             Forall (fun n => tree_ok n = true -> trel TIB SOKB n (norm_tree n)) (flat_map cell_content cells) ->
+             forallb ok_cell cells = true -> Forall2 (cellrel TIB SOKB) cells (map norm_cell cells)).
+  { induction cells as [|[n k s] cells IHc]; intros HF Hb; cbn [map]; constructor;
+      cbn [forallb ok_cell] in Hb; apply andb_true_iff in Hb; destruct Hb as [Hb1 Hb2];
+      cbn [flat_map cell_content] in HF; apply Forall_app in HF; destruct HF as [HF1 HF2].
+    - apply andb_true_iff in Hb1. destruct Hb1 as [Hs Hk]. cbn [norm_cell].
+      constructor; [apply style_no_pre_ok, Hs|apply K; assumption].
+    - apply IHc; assumption. }
+  assert (KR : forall rows,
+             Forall (fun n => tree_ok n = true -> trel TIB SOKB n (norm_tree n)) (flat_map row_kids rows) ->
+             forallb ok_row rows = true -> Forall2 (rowrel TIB SOKB) rows (map norm_row rows)).
+  { induction rows as [|[cells s] rows IHr]; intros HF Hb; cbn [map]; constructor;
+      cbn [forallb ok_row] in Hb; apply andb_true_iff in Hb; destruct Hb as [Hb1 Hb2];
+      cbn [flat_map] in HF; apply Forall_app in HF; destruct HF as [HF1 HF2].
+    - apply andb_true_iff in Hb1. destruct Hb1 as [Hs Hk]. cbn [norm_row].
+      constructor; [apply style_no_pre_ok, Hs|apply KC; assumption].
+    - apply IHr; assumption. }
+  destruct i; cbn [direct_kids] in IH; cbn [tree_ok] in Hok; apply andb_true_iff in Hok;
+    destruct Hok as [Hs Hi]; cbn [norm_tree]; (constructor; [apply style_no_pre_ok, Hs|]);
+    constructor; auto. split; [reflexivity|exact Hi].
+Qed.
+
+(* ---- digits (superscripts) ---- *)
+Lemma norm_no_ws : forall t, forallb (fun c => negb (ws c)) t = true -> normalise t = t.
+Proof.
+  unfold normalise. induction t as [|c t IH]; intros H; cbn [norm_loop]; [reflexivity|].
+  cbn [forallb] in H. apply andb_true_iff in H. destruct H as [Hc Ht].
+  destruct (ws c); [discriminate|]. f_equal. apply IH, Ht.
+Qed.
+
+Lemma digits_no_ws : forall t, wfd t = true -> forallb is_ascii_digit t = true ->
+  forallb (fun c => negb (ws c)) t = true.
+Proof.
+  induction t as [|c t IH]; intros Hw Hd; [reflexivity|]. unfold wfd in *. cbn [forallb] in *.
+  apply andb_true_iff in Hw. apply andb_true_iff in Hd. destruct Hw as [Hw1 Hw2], Hd as [Hd1 Hd2].
+  rewrite Hd1, andb_true_r in Hw1. rewrite Hw1. cbn [andb]. apply IH; assumption.
+Qed.
+
+Lemma norm_digits_no_ws : forall t, forallb is_ascii_digit (normalise t) = true ->
+  forallb (fun c => negb (ws c)) t = true.
+Proof.
+  unfold normalise. induction t as [|c t IH]; intros Hd; [reflexivity|]. cbn [norm_loop] in Hd.
+  cbn [forallb]. destruct (ws c) eqn:Ec.
+  - cbn [forallb] in Hd. discriminate.
+  - cbn [forallb] in Hd. apply andb_true_iff in Hd. cbn [negb andb]. apply IH, Hd.
+Qed.
+
+(* ---- the diagonal relation: the same sub-renderer, in normal white-space mode ---- *)
+Definition SRB (x y : subr) : Prop := x = y /\ ws_stack x = [].
+
+Lemma rs_strict_refl {A} (e : res A) : rs MStrict eq e e.
+Proof. destruct e; cbn [rs]; auto. Qed.
+
+Lemma srb_res (e : res subr) x :
+  (forall x', e = Ok x' -> km x' = km x) -> ws_stack x = [] -> rs MStrict SRB e e.
+Proof.
+  intros H Hw. destruct e as [x'| | |]; cbn [rs]; auto. split; [reflexivity|].
+  rewrite (km_ws _ _ (H x' eq_refl)). exact Hw.
+Qed.
+
+Lemma srb_op f : (forall x x', f x = Ok x' -> km x' = km x) -> gop MStrict SRB f.
+Proof. intros H x y [<- Hw]. apply (srb_res _ x); [apply H|exact Hw]. Qed.
+
+Lemma srb_pure g : (forall x, ws_stack (g x) = ws_stack x) -> pureR SRB g.
+Proof. intros H x y [<- Hw]. split; [reflexivity|]. rewrite H. exact Hw. Qed.
+
+Lemma F2_SRB us vs : Forall2 SRB us vs -> us = vs.
+Proof. induction 1 as [|u v us vs [E _] _ IH]; congruence. Qed.
+
+Lemma SRB_ops d mw : GOps MStrict d mw SRB TIB SOKB.
+Proof.
+  constructor.
+  - intros r g b. apply srb_pure. intros x. unfold push_colour. destruct (d_colours d); reflexivity.
+  - intros r g b. apply srb_pure. intros x. unfold push_bgcolour. destruct (d_colours d); reflexivity.
+  - intros cs m Hs Hm. unfold SOKB in Hs. congruence.
+  - apply srb_pure. reflexivity.
+  - apply srb_pure. intros x. unfold pop_colour. destruct (d_colours d); reflexivity.
+  - intros x y [<- Hw]. split; [reflexivity|]. unfold pop_ws_mode. cbn [ws_stack set_ws_stack].
+    rewrite Hw. reflexivity.
+  - apply srb_op. intros x x' H. unfold pop_preformat in H. destruct (0 <? pre_depth x); [|discriminate].
+    ok_inv H. reflexivity.
+  - intros t1 t2 [-> _] x y [<- Hw]. rewrite (add_inline_text_norm d x t1 Hw).
+    apply (srb_res _ x); [intros x'; apply km_add_inline_text|exact Hw].
+  - intros t. apply srb_op. intros x x'. apply km_add_inline_text.
+  - intros t1 t2 [-> _]. symmetry. apply text_est_norm.
+  - intros t1 t2 [-> Hw] [Hd|Hd]; symmetry; apply norm_no_ws.
+    + apply digits_no_ws; assumption.
+    + apply norm_digits_no_ws, Hd.
+  - intros h. apply srb_op. intros x x'. apply km_start_deco.
+  - apply srb_op. intros x x'. apply km_end_deco.
+  - intros x y [<- _]. reflexivity.
+  - apply srb_op. intros x x'. apply km_start_deco.
+  - apply srb_op. intros x x'. apply km_end_deco.
+  - apply srb_op. intros x x'. apply km_start_deco.
+  - apply srb_op. intros x x'. apply km_end_deco.
+  - apply srb_op. intros x x'. apply km_start_strikeout.
+  - apply srb_op. intros x x'. apply km_end_strikeout.
+  - apply srb_op. intros x x'. apply km_start_deco.
+  - apply srb_op. intros x x'. apply km_end_deco.
+  - apply srb_op. intros x x'. apply km_start_deco.
+  - apply srb_op. intros x x'. apply km_end_deco.
+  - intros src t. apply srb_op. intros x x'. apply km_add_image.
+  - apply srb_op. intros x x'. apply km_start_block.
+  - apply srb_pure. reflexivity.
+  - apply srb_op. intros x x'. apply km_flush_wrapping.
+  - apply srb_op. intros x x'. apply km_new_line_hard.
+  - intros n. apply srb_pure. reflexivity.
+  - intros x y p mn [<- _]. apply rs_strict_refl.
+  - intros u v w [<- Hw]. split; [reflexivity|exact Hw].
+  - intros x y u v f r [<- Hw] [<- _]. apply (srb_res _ x); [intros x'; apply km_append_subrender|exact Hw].
+  - intros x y [<- _]. reflexivity.
+  - intros x y [<- _]. reflexivity.
+  - intros x y [<- _]. reflexivity.
+  - intros w. apply srb_op. intros x x'. apply km_hborder.
+  - intros x y us vs [<- Hw] Huv. apply F2_SRB in Huv. subst vs.
+    apply (srb_res _ x); [intros x'; apply km_append_vert_row|exact Hw].
+  - intros x y us vs [<- Hw] Huv. apply F2_SRB in Huv. subst vs.
+    apply (srb_res _ x); [intros x'; apply km_append_columns|exact Hw].
+  - intros u v [<- _]. reflexivity.
+Qed.
+
+(* MAIN THEOREM B1 (C13): a tree and its whitespace normal form render identically (the same
+   outcome -- Ok with the same sub-renderer, TooNarrow, or the same Panic site). *)
+Theorem c13_norm_render d mw o width tree :
+  tree_ok tree = true ->
+  render_tree d mw o width (norm_tree tree) = render_tree d mw o width tree.
+Proof.
+  intros Hok. symmetry. apply rs_strict_eq.
+  apply (rs_impl MStrict SRB eq); [intros a b [E _]; exact E|].
+  apply (g_render_tree MStrict d mw SRB TIB SOKB (SRB_ops d mw)).
+  - intros x y ls [<- Hw]. split; [reflexivity|]. rewrite (km_ws _ _ (km_fmt_links ls x)). exact Hw.
+  - apply trel_norm, Hok.
+  - split; reflexivity.
+Qed.
+Print Assumptions c13_norm_render.
+
+(* two trees are whitespace-equivalent when they have the same normal form: the same shape,
+   styles and attributes, and corresponding text leaves t1, t2 with normalise t1 = normalise t2
+   (they differ only in which whitespace characters they contain and in the lengths of the
+   whitespace runs; a leading / trailing run stays a run) *)
+Definition ws_equiv (t1 t2 : rnode) : Prop := norm_tree t1 = norm_tree t2.
+
+(* MAIN THEOREM B2 (C13) *)
+Theorem c13_ws_equiv_render d mw o width tree1 tree2 :
+  ws_equiv tree1 tree2 -> tree_ok tree1 = true -> tree_ok tree2 = true ->
+  render_tree d mw o width tree1 = render_tree d mw o width tree2.
+Proof.
+  intros He H1 H2. rewrite <- (c13_norm_render d mw o width tree1 H1),
+    <- (c13_norm_render d mw o width tree2 H2). unfold ws_equiv in He. rewrite He. reflexivity.
+Qed.
+Print Assumptions c13_ws_equiv_render.
+
+(* consequences: the same lines and the same string (render_with_context included) *)
+Corollary c13_ws_equiv_lines d mw o width tree1 tree2 :
+  ws_equiv tree1 tree2 -> tree_ok tree1 = true -> tree_ok tree2 = true ->
+  (do s <- render_tree d mw o width tree1; sub_into_lines s) =
+  (do s <- render_tree d mw o width tree2; sub_into_lines s) /\
+  (do s <- render_tree d mw o width tree1; sub_into_string s) =
+  (do s <- render_tree d mw o width tree2; sub_into_string s).
+Proof. intros He H1 H2. rewrite (c13_ws_equiv_render d mw o width _ _ He H1 H2). auto. Qed.
+
+Print Assumptions c13_ws_equiv_lines.
+
+Corollary c13_render_with_context c tree1 tree2 w :
+  ws_equiv tree1 tree2 -> tree_ok tree1 = true -> tree_ok tree2 = true ->
+  render_with_context c tree1 w = render_with_context c tree2 w.
+Proof.
+  intros He H1 H2. unfold render_with_context. destruct (w =? 0); [reflexivity|].
+  apply c13_ws_equiv_render; assumption.
+Qed.
+
+Print Assumptions c13_render_with_context.
+
+(* ---- non-vacuity of Part B ---- *)
+Definition exw_chr (c : N) : chr :=
+  if c =? 32 then mkchr 32 (Some 1) true 16 else if c =? 9 then mkchr 9 None true 16
+  else if c =? 10 then mkchr 10 None true 16 else mkchr c (Some 1) false 16.
+Definition exw_str (l : list N) : text := map exw_chr l.
+Definition exw_cell (l : list N) : rcell := RCell 1 [ex_n (IText (exw_str l))] cstyle0.
+(* RenderWidth.ex_tree with its single spaces replaced by runs of spaces, tabs and newlines *)
+Definition ex_tree_ws : rnode :=
+  ex_n (IContainer
+    [ex_n (IBlock [ex_n (IText (exw_str [104;101;108;108;111;32;10;9;119;105;100;101;9;119;111;114;108;100]))]);
+     ex_n (ITable [RRow [exw_cell [97;98;10;10;99;100]; exw_cell [101;102;103]] cstyle0;
+                   RRow [exw_cell [104]; exw_cell [105;106;32;32;32;107;108;9;109;110]] cstyle0] 2);
+     ex_n (IUl [ex_n (IListItem [ex_n (IText (exw_str [111;110;101;10;116;119;111;32;32;116;104;114;101;101]))])]);
+     ex_n (IOl 9 [ex_n (IListItem [ex_n (IText (exw_str [120]))]);
+                  ex_n (IListItem [ex_n (IText (exw_str [121]))])])]).
+
+Example exc_hyps : ws_equiv ex_tree ex_tree_ws /\ tree_ok ex_tree = true /\ tree_ok ex_tree_ws = true /\
+                   ex_tree <> ex_tree_ws.
+Proof. split; [vm_compute; reflexivity|]. split; [reflexivity|]. split; [reflexivity|discriminate]. Qed.
+
+Example exc_applies :
+  render_tree plain_deco 3 exb_opts 12 ex_tree_ws = Ok exa_s1 /\
+  exists ls, sub_into_lines exa_s1 = Ok ls /\ length ls = 14%nat.
+Proof.
+  destruct exc_hyps as (He & H1 & H2 & _).
+  rewrite <- (c13_ws_equiv_render plain_deco 3 exb_opts 12 ex_tree ex_tree_ws He H1 H2).
+  split; [exact exa_render_eq|exact exa_lines].
+Qed.
+
+(* the side condition is needed.  (1) In a preformatted block the runs are kept: *)
+Definition exc_pre_sty : cstyle :=
+  mkcs (mkcore ws_default ws_default ws_default (maybe_update ws_default false OAgent spec0 WsPre)
+               ws_default) None None true.
+Definition exc_pre1 : rnode := RN (IBlock [ex_n (IText (exw_str [97;32;32;98]))]) exc_pre_sty.
+Definition exc_pre2 : rnode := RN (IBlock [ex_n (IText (exw_str [97;32;98]))]) exc_pre_sty.
+Example exc_pre_differs :
+  ws_equiv exc_pre1 exc_pre2 /\ tree_ok exc_pre1 = false /\
+  out_of (render_tree plain_deco 3 exb_opts 12 exc_pre1) = Ok [[97;32;32;98]] /\
+  out_of (render_tree plain_deco 3 exb_opts 12 exc_pre2) = Ok [[97;32;98]].
+Proof. split; [vm_compute; reflexivity|]. split; [reflexivity|]. split; vm_compute; reflexivity. Qed.
+
+(* (2) a model character that is both whitespace and an ASCII digit (no such Unicode character
+   exists) inside <sup> is turned into a superscript digit, a space is not: *)
+Definition exc_dig1 : rnode := ex_n (ISup [ex_n (IText [mkchr 48 (Some 1) true 16])]).
+Definition exc_dig2 : rnode := ex_n (ISup [ex_n (IText [mkchr 32 (Some 1) true 16])]).
+Example exc_digit_differs :
+  ws_equiv exc_dig1 exc_dig2 /\ tree_ok exc_dig1 = false /\ tree_ok exc_dig2 = true /\
+  out_of (render_tree plain_deco 3 exb_opts 12 exc_dig1) = Ok [[8304]] /\
+  out_of (render_tree plain_deco 3 exb_opts 12 exc_dig2) = Ok [[94;123;32;125]].
+Proof.
+  split; [vm_compute; reflexivity|]. split; [reflexivity|]. split; [reflexivity|].
+  split; vm_compute; reflexivity.
+Qed.
+
+(* ================================================================== *)
+(* 6. PART A, fourth clause: with overflow allowed, never TooNarrow     *)
+(* ================================================================== *)
+(* rn P r: r is not TooNarrow, and P holds of its value when it is Ok *)
+Definition rn {A} (P : A -> Prop) (r : res A) : Prop :=
+  match r with Ok a => P a | TooNarrow => False | _ => True end.
+
+Lemma rn_bind {A B} (P : A -> Prop) (Q : B -> Prop) r k :
+  rn P r -> (forall a, P a -> rn Q (k a)) -> rn Q (bind r k).
+Proof. destruct r; cbn [rn bind]; auto. Qed.
+
+Lemma rn_impl {A} (P Q : A -> Prop) r : (forall a, P a -> Q a) -> rn P r -> rn Q r.
+Proof. destruct r; cbn [rn]; auto. Qed.
+
+Lemma rn_ntn {A} (P : A -> Prop) r : rn P r -> r <> TooNarrow.
+Proof. destruct r; cbn [rn]; intros H; try discriminate. contradiction. Qed.
+
+Definition tt_ {A} (_ : A) : Prop := True.
+
+(* ---- the wrapped block with allow_overflow = true ---- *)
+Definition ovf (b : wblock) : Prop := allow_overflow b = true.
+
+Lemma usub_rn s a b : rn tt_ (usub s a b).
+Proof. unfold usub. destruct (b <=? a); exact I. Qed.
+
+Lemma tl_pad_to_rn l w t : rn tt_ (tl_pad_to l w t).
+Proof.
+  unfold tl_pad_to, tl_width. destruct (tlen_ l =? tl_width_raw l); cbn [bind]; [|exact I].
+  destruct (tl_width_raw l <? w); exact I.
+Qed.
+
+Lemma ffl_rn b : ovf b -> rn ovf (force_flush_line b).
+Proof.
+  intros H. unfold force_flush_line. eapply rn_bind with (P := tt_).
+  - destruct (pad_blocks b); [apply tl_pad_to_rn|exact I].
+  - intros l _. exact H.
+Qed.
+
+Lemma flush_line_rn b : ovf b -> rn ovf (flush_line b).
+Proof. intros H. unfold flush_line. destruct (tl_is_empty (wline b)); [exact H|apply ffl_rn, H]. Qed.
+
+Lemma hw_scan_rn line0 : forall s first tr ll wp, rn tt_ (hw_scan true line0 first s tr ll wp).
+Proof.
+  induction s as [|c s IH]; intros first tr ll wp; cbn [hw_scan]; [exact I|].
+  destruct (cw c) as [c_w|]; [|exact I]. destruct (c_w <=? ll); [apply IH|].
+  destruct first; [|exact I].
+  unfold tl_width. destruct (tlen_ line0 =? tl_width_raw line0); cbn [bind]; [|exact I].
+  destruct (tl_width_raw line0 =? 0); exact I.
+Qed.
+
+Lemma hw_piece_rn t w : forall fuel b rest consumed lineleft wpos,
+  ovf b -> rn (fun p => ovf (fst p)) (hw_piece fuel b t w rest consumed lineleft wpos).
+Proof.
+  induction fuel as [|f IH]; intros b rest consumed lineleft wpos H; cbn [hw_piece]; [exact I|].
+  eapply rn_bind; [apply usub_rn|]. intros rem _.
+  destruct (lineleft <? rem).
+  - unfold ovf in H. rewrite H. eapply rn_bind; [apply hw_scan_rn|]. intros [[taken ll] wpos'] _.
+    eapply rn_bind; [apply ffl_rn; exact H|]. intros b2 H2. apply IH, H2.
+  - destruct (negb consumed).
+    + eapply rn_bind; [apply usub_rn|]. intros ll _. exact H.
+    + destruct rest; [exact H|]. eapply rn_bind; [apply usub_rn|]. intros ll _. exact H.
+Qed.
+
+Lemma hw_elems_rn : forall els b ll, ovf b -> rn ovf (hw_elems b els ll).
+Proof.
+  induction els as [|e els IH]; intros b ll H; cbn [hw_elems]; [exact H|].
+  destruct e as [s t|n].
+  - eapply rn_bind; [apply hw_piece_rn, H|]. intros [b' x] H'. apply IH, H'.
+  - apply IH, H.
+Qed.
+
+Lemma fwhw_rn b : ovf b -> rn ovf (flush_word_hard_wrap b).
+Proof.
+  intros H. unfold flush_word_hard_wrap. eapply rn_bind; [apply usub_rn|]. intros ll _.
+  apply hw_elems_rn, H.
+Qed.
+
+Lemma ws_loop_rn : forall fuel b, ovf b -> rn ovf (ws_loop fuel b).
+Proof.
+  induction fuel as [|f IH]; intros b H; cbn [ws_loop]; (destruct (wslen b =? 0); [exact H|]);
+    [exact I|].
+  destruct (wwidth b =? 0); [exact H|]. destruct (spacetag b) as [st|]; [|exact I].
+  eapply rn_bind with (P := ovf).
+  { destruct (N.min (wslen b) (wwidth b) =? wwidth b); [apply flush_line_rn|]; exact H. }
+  intros b2 H2. apply IH, H2.
+Qed.
+
+Lemma flush_word_rn m b : ovf b -> rn ovf (flush_word b m).
+Proof.
+  intros H. unfold flush_word. destruct (word_is_empty (wword b)); [exact H|].
+  eapply rn_bind; [apply usub_rn|]. intros sil _.
+  destruct (wslen b + wordlen b <=? sil).
+  - eapply rn_bind with (P := ovf).
+    { destruct (0 <? wslen b); [|exact H]. destruct (spacetag b); [exact H|exact I]. }
+    intros b1 H1. exact H1.
+  - eapply rn_bind with (P := ovf).
+    { destruct (negb (do_wrap m)); [|exact H].
+      destruct (sil <=? wslen b); [exact H|]. destruct (0 <? wslen b); [|exact H].
+      destruct (spacetag b); [exact H|exact I]. }
+    intros b1 H1. eapply rn_bind; [apply flush_line_rn, H1|]. intros b2 H2.
+    eapply rn_bind with (P := ovf).
+    { apply ws_loop_rn. destruct (is_pre m); exact H2. }
+    intros b4 H4. eapply rn_bind with (P := ovf); [apply fwhw_rn; exact H4|].
+    intros b6 H6. exact H6.
+Qed.
+
+Lemma tab_loop_rn : forall fuel b t tw pos one fl,
+  ovf b -> rn (fun p => ovf (fst p)) (tab_loop fuel b t tw pos one fl).
+Proof.
+  induction fuel as [|f IH]; intros b t tw pos one fl H; cbn [tab_loop];
+    (destruct (negb (pos mod 8 =? 0) || negb one); [|exact H]); [exact I|].
+  destruct (wwidth b =? 0); [exact H|]. destruct (wwidth b <=? pos).
+  - eapply rn_bind; [apply flush_line_rn, H|]. intros b1 H1. apply IH, H1.
+  - apply IH. exact H.
+Qed.
+
+Lemma add_char_rn m t1 t2 b u c :
+  ovf b -> rn (fun p => ovf (fst p)) (add_char m t1 t2 (b, u) c).
+Proof.
+  intros H. unfold add_char.
+  eapply rn_bind with (P := ovf).
+  { destruct (ws c && (0 <? wordlen b)); [apply flush_word_rn, H|exact H]. }
+  clear b H. intros b H. cbv zeta.
+  destruct (ws c).
+  - destruct (preserve_ws m).
+    + destruct (cp c =? 10).
+      * eapply rn_bind; [apply ffl_rn, H|]. intros b1 H1. exact H1.
+      * destruct (cp c =? 9).
+        -- eapply rn_bind; [apply tab_loop_rn, H|]. intros [b1 f1] H1. cbn [fst snd] in *.
+           destruct (is_pre m && f1); exact H1.
+        -- destruct (cw c) as [cwidth|]; [|exact H].
+           destruct (wwidth b <? tlen_ (wline b) + wslen b + cwidth); [|exact H].
+           eapply rn_bind; [apply flush_line_rn; exact H|]. intros b2 H2.
+           destruct (do_wrap m); exact H2.
+    + destruct ((0 <? tlen_ (wline b)) && (wslen b =? 0)); exact H.
+  - destruct (cw c) as [cwidth|]; [|exact H].
+    destruct (is_pre m && (wwidth b <? tlen_ (wline b) + wslen b + (wordlen b + cwidth))); exact H.
+Qed.
+
+Lemma add_chars_rn m t1 t2 : forall s b u,
+  ovf b -> rn (fun p => ovf (fst p)) (add_chars m t1 t2 (b, u) s).
+Proof.
+  induction s as [|c s IH]; intros b u H; cbn [add_chars]; [exact H|].
+  eapply rn_bind; [apply add_char_rn, H|]. intros [b' u'] H'. apply IH, H'.
+Qed.
+
+Lemma wb_add_text_rn b s m t1 t2 : ovf b -> rn ovf (wb_add_text b s m t1 t2).
+Proof.
+  intros H. unfold wb_add_text. eapply rn_bind; [apply add_chars_rn, H|]. intros p Hp. exact Hp.
+Qed.
+
+Lemma wb_into_lines_rn b : ovf b -> rn tt_ (wb_into_lines b).
+Proof.
+  intros H. unfold wb_into_lines, wb_flush.
+  eapply rn_bind with (P := ovf).
+  - eapply rn_bind; [apply flush_word_rn, H|]. intros b1 H1. apply flush_line_rn, H1.
+  - intros b1 _. exact I.
+Qed.
+
+(* ---- the sub-renderer: options allow overflow, and so does the pending wrapped block ---- *)
+Definition NI (x : subr) : Prop :=
+  o_allow_overflow (sopts x) = true /\
+  match wrapping x with Some w => ovf w | None => True end.
+
+Lemma NI_ext x x' : sopts x' = sopts x -> wrapping x' = wrapping x -> NI x -> NI x'.
+Proof. unfold NI. intros -> ->. auto. Qed.
+
+Lemma NI_add_line x l : NI x -> NI (add_line x l).
+Proof. destruct (add_line_same x l) as (_ & a & b). apply NI_ext; assumption. Qed.
+
+Lemma NI_extend_lines ls : forall x, NI x -> NI (extend_lines x ls).
+Proof.
+  unfold extend_lines. induction ls as [|l ls IH]; intros x H; cbn [fold_left]; [exact H|].
+  apply IH, NI_add_line, H.
+Qed.
+
+Lemma NI_none x : NI x -> NI (set_wrapping x None).
+Proof. intros [H _]. split; [exact H|exact I]. Qed.
+
+Lemma flush_rn x : NI x -> rn NI (flush_wrapping x).
+Proof.
+  intros H. unfold flush_wrapping. destruct (wrapping x) as [w|] eqn:E; [|exact H].
+  assert (Hw : ovf w) by (destruct H as [_ H]; rewrite E in H; exact H).
+  unfold take_trailing_fragments. 
+  assert (Hw1 : ovf (fst (if word_is_empty (wword w) then (set_word w [] (wordlen w), wword w) else (w, [])))).
+  { destruct (word_is_empty (wword w)); exact Hw. }
+  destruct (if word_is_empty (wword w) then (set_word w [] (wordlen w), wword w) else (w, [])) as [w1 frags].
+  cbn [fst] in Hw1.
+  eapply rn_bind; [apply wb_into_lines_rn, Hw1|]. intros ls _. cbn [rn].
+  pose proof (NI_extend_lines (map RText ls) _ (NI_none x H)) as H1.
+  revert H1. apply NI_ext; reflexivity.
+Qed.
+
+Lemma add_empty_line_rn x : NI x -> rn NI (add_empty_line x).
+Proof.
+  intros H. unfold add_empty_line. eapply rn_bind; [apply flush_rn, H|]. intros x1 H1. cbn [rn].
+  pose proof (NI_add_line x1 (RText tl_new) H1) as H2. revert H2. apply NI_ext; reflexivity.
+Qed.
+
+Lemma start_block_rn x : NI x -> rn NI (start_block x).
+Proof.
+  intros H. unfold start_block. eapply rn_bind; [apply flush_rn, H|]. intros x1 H1.
+  eapply rn_bind with (P := NI).
+  { destruct (existsb rline_has_content (slines x1)); [apply add_empty_line_rn, H1|exact H1]. }
+  intros x2 H2. cbn [rn]. revert H2. apply NI_ext; reflexivity.
+Qed.
+
+Lemma new_line_hard_rn x : NI x -> rn NI (new_line_hard x).
+Proof.
+  intros H. unfold new_line_hard. destruct (wrapping x) as [w|]; [|apply add_empty_line_rn, H].
+  destruct ((wordlen w =? 0) && (tlen_ (wline w) =? 0)); [apply add_empty_line_rn, H|apply flush_rn, H].
+Qed.
+
+Lemma hline_rn x b t : NI x -> rn NI (add_horizontal_line x b t).
+Proof.
+  intros H. unfold add_horizontal_line. eapply rn_bind; [apply flush_rn, H|]. intros x1 H1.
+  cbn [rn]. apply NI_add_line, H1.
+Qed.
+
+Lemma hborder_rn x w : NI x -> rn NI (add_horizontal_border_width x w).
+Proof.
+  intros H. unfold add_horizontal_border_width. eapply rn_bind; [apply flush_rn, H|]. intros x1 H1.
+  cbn [rn]. apply NI_add_line, H1.
+Qed.
+
+Lemma get_wrapping_ovf x : NI x -> ovf (get_wrapping x).
+Proof.
+  intros [Ho Hw]. unfold get_wrapping. destruct (wrapping x) as [w|]; [exact Hw|]. exact Ho.
+Qed.
+
+Lemma inline_rn d x t : NI x -> rn NI (add_inline_text d x t).
+Proof.
+  intros H. unfold add_inline_text.
+  destruct (negb (preserve_ws (ws_mode x)) && at_block_end x && all_ws t); [exact H|].
+  eapply rn_bind with (P := NI).
+  { destruct (at_block_end x); [apply start_block_rn, H|exact H]. }
+  intros x1 H1. eapply rn_bind; [apply wb_add_text_rn, get_wrapping_ovf, H1|].
+  intros w1 Hw1. cbn [rn]. split; [exact (proj1 H1)|exact Hw1].
+Qed.
+
+Lemma NI_push_ann x a : NI x -> NI (push_ann x a).
+Proof. apply NI_ext; reflexivity. Qed.
+Lemma NI_pop_ann x : NI x -> NI (pop_ann x).
+Proof. apply NI_ext; reflexivity. Qed.
+
+Lemma start_deco_rn d x p : NI x -> rn NI (start_deco d x p).
+Proof. intros H. unfold start_deco. apply inline_rn, NI_push_ann, H. Qed.
+Lemma end_deco_rn d x e : NI x -> rn NI (end_deco d x e).
+Proof.
+  intros H. unfold end_deco. eapply rn_bind; [apply inline_rn, H|]. intros x1 H1. cbn [rn].
+  apply NI_pop_ann, H1.
+Qed.
+
+Lemma start_strikeout_rn d x : NI x -> rn NI (start_strikeout d x).
+Proof.
+  intros H. unfold start_strikeout. eapply rn_bind; [apply start_deco_rn, H|]. intros x1 H1.
+  cbn [rn]. destruct (o_strike (sopts x1)); [|exact H1]. revert H1. apply NI_ext; reflexivity.
+Qed.
+
+Lemma end_strikeout_rn d x : NI x -> rn NI (end_strikeout d x).
+Proof.
+  intros H. unfold end_strikeout. eapply rn_bind with (P := NI); [|intros; apply end_deco_rn; assumption].
+  destruct (o_strike (sopts x)); [|exact H]. destruct (filter_depth x); [exact I|]. cbn [rn].
+  revert H. apply NI_ext; reflexivity.
+Qed.
+
+Lemma image_rn d x src t : NI x -> rn NI (add_image d x src t).
+Proof.
+  intros H. unfold add_image. eapply rn_bind; [apply inline_rn, NI_push_ann, H|]. intros x1 H1.
+  cbn [rn]. apply NI_pop_ann, H1.
+Qed.
+
+Lemma sub_into_lines_rn x : NI x -> rn tt_ (sub_into_lines x).
+Proof.
+  intros H. unfold sub_into_lines. eapply rn_bind; [apply flush_rn, H|]. intros x1 _. exact I.
+Qed.
+
+Lemma append_rn x u f r : NI x -> NI u -> rn NI (append_subrender x u f r).
+Proof.
+  intros Hx Hu. unfold append_subrender. eapply rn_bind; [apply flush_rn, Hx|]. intros x1 H1.
+  eapply rn_bind; [apply sub_into_lines_rn, Hu|]. intros ols _. cbn [rn].
+  apply NI_extend_lines, H1.
+Qed.
+
+Lemma vert_cols_rn : forall us x first, NI x -> Forall NI us -> rn NI (vert_cols x us first).
+Proof.
+  induction us as [|u us IH]; intros x first Hx Hus; cbn [vert_cols]; [exact Hx|].
+  eapply rn_bind with (P := NI).
+  { destruct (negb first && o_borders (sopts x)); [apply hline_rn, Hx|exact Hx]. }
+  intros x1 H1. eapply rn_bind; [apply append_rn; [exact H1|exact (Forall_inv Hus)]|].
+  intros x2 H2. apply IH; [exact H2|exact (Forall_inv_tail Hus)].
+Qed.
+
+Lemma vert_rn x us : NI x -> Forall NI us -> rn NI (append_vert_row x us).
+Proof.
+  intros Hx Hus. unfold append_vert_row. eapply rn_bind; [apply flush_rn, Hx|]. intros x1 H1.
+  eapply rn_bind; [apply vert_cols_rn; assumption|]. intros x2 H2.
+  destruct (o_borders (sopts x2)); [|exact H2]. apply hborder_rn, H2.
+Qed.
+
+Lemma pad_cell_lines_rn w t : forall ls, rn tt_ (pad_cell_lines w t ls).
+Proof.
+  induction ls as [|[tl|b bt] ls IH]; cbn [pad_cell_lines]; [exact I| |].
+  - eapply rn_bind; [apply tl_pad_to_rn|]. intros tl' _. eapply rn_bind; [apply IH|]. intros; exact I.
+  - eapply rn_bind; [apply IH|]. intros; exact I.
+Qed.
+
+Lemma col_line_sets_rn t : forall us, Forall NI us -> rn tt_ (col_line_sets t us).
+Proof.
+  induction us as [|u us IH]; intros Hus; cbn [col_line_sets]; [exact I|].
+  eapply rn_bind; [apply sub_into_lines_rn, (Forall_inv Hus)|]. intros ls _.
+  eapply rn_bind; [apply pad_cell_lines_rn|]. intros pls _.
+  eapply rn_bind; [apply IH, (Forall_inv_tail Hus)|]. intros; exact I.
+Qed.
+
+Lemma collapse_top_rn : forall sets prev pos, rn tt_ (collapse_top sets prev pos).
+Proof.
+  induction sets as [|[w sub] sets IH]; intros prev pos; cbn [collapse_top]; [exact I|].
+  destruct sub as [|[l|line lt] sub'].
+  - eapply rn_bind; [apply IH|]. intros; exact I.
+  - eapply rn_bind; [apply IH|]. intros; exact I.
+  - destruct prev as [pb|]; [|exact I]. eapply rn_bind; [apply IH|]. intros; exact I.
+Qed.
+
+Lemma NI_row_lines t draw sets pads : forall n i x, NI x -> NI (row_lines t draw n i sets pads x).
+Proof.
+  induction n as [|n IH]; intros i x H; cbn [row_lines]; [exact H|]. apply IH, NI_add_line, H.
+Qed.
+
+Lemma cols_rn x us collapse : NI x -> Forall NI us -> rn NI (append_columns_with_borders x us collapse).
+Proof.
+  intros Hx Hus. unfold append_columns_with_borders.
+  eapply rn_bind; [apply flush_rn, Hx|]. intros x1 H1.
+  eapply rn_bind; [apply col_line_sets_rn, Hus|]. intros sets _.
+  eapply rn_bind with (P := tt_); [destruct sets; exact I|]. intros _ _.
+  match goal with
+  | |- rn _ (let '(p1, n1) := ?e in _) => destruct e as [prev1 next1]
+  end.
+  eapply rn_bind with (P := tt_).
+  { destruct collapse; [|exact I]. eapply rn_bind; [apply collapse_top_rn|]. intros [prev2 sets2] _.
+    destruct (collapse_bottom sets2 next1 0) as [[next2 sets3] pads]. exact I. }
+  intros [[[prev3 next3] sets4] pads] _. cbn [rn].
+  match goal with
+  | |- NI (if ?c then add_line ?s ?l else ?s) =>
+    assert (H3 : NI s); [|destruct c; [apply NI_add_line|]; exact H3]
+  end.
+  apply NI_row_lines. revert H1. apply NI_ext; reflexivity.
+Qed.
+
+Lemma width_minus_rn x p mn : NI x -> rn tt_ (width_minus x p mn).
+Proof. intros [Ho _]. unfold width_minus. rewrite Ho. cbn [negb]. rewrite andb_false_r. exact I. Qed.
+
+(* the diagonal relation of the simulation *)
+Definition SRN (x y : subr) : Prop := x = y /\ NI x.
+
+Lemma srn_res (e : res subr) : rn NI e -> rs MNtn SRN e e.
+Proof. destruct e; cbn [rn rs]; auto; try discriminate. intros H. split; [reflexivity|exact H]. Qed.
+
+Lemma srn_op f : (forall x, NI x -> rn NI (f x)) -> gop MNtn SRN f.
+Proof. intros H x y [<- Hx]. apply srn_res, H, Hx. Qed.
+
+Lemma srn_pure g : (forall x, sopts (g x) = sopts x /\ wrapping (g x) = wrapping x) -> pureR SRN g.
+Proof.
+  intros H x y [<- Hx]. split; [reflexivity|]. destruct (H x) as [a b]. revert Hx. apply NI_ext; assumption.
+Qed.
+
+Lemma F2_SRN us vs : Forall2 SRN us vs -> us = vs /\ Forall NI us.
+Proof.
+  induction 1 as [|u v us vs [E Hn] _ [IH1 IH2]]; [auto|]. subst. split; [reflexivity|]. constructor; auto.
+Qed.
+
+Lemma SRN_ops d mw : GOps MNtn d mw SRN eq (fun _ => True).
+Proof.
+  constructor.
+  - intros r g b. apply srn_pure. intros x. unfold push_colour. destruct (d_colours d); auto.
+  - intros r g b. apply srn_pure. intros x. unfold push_bgcolour. destruct (d_colours d); auto.
+  - intros cs m _ _. apply srn_pure. auto.
+  - apply srn_pure. auto.
+  - apply srn_pure. intros x. unfold pop_colour. destruct (d_colours d); auto.
+  - apply srn_pure. auto.
+  - apply srn_op. intros x H. unfold pop_preformat. destruct (0 <? pre_depth x); [|exact I]. cbn [rn].
+    revert H. apply NI_ext; reflexivity.
+  - intros t1 t2 <-. apply srn_op. intros x. apply inline_rn.
+  - intros t. apply srn_op. intros x. apply inline_rn.
+  - intros t1 t2 <-. reflexivity.
+  - intros t1 t2 <- _. reflexivity.
+  - intros h. apply srn_op. intros x. apply start_deco_rn.
+  - apply srn_op. intros x. apply end_deco_rn.
+  - intros x y [<- _]. reflexivity.
+  - apply srn_op. intros x. apply start_deco_rn.
+  - apply srn_op. intros x. apply end_deco_rn.
+  - apply srn_op. intros x. apply start_deco_rn.
+  - apply srn_op. intros x. apply end_deco_rn.
+  - apply srn_op. intros x. apply start_strikeout_rn.
+  - apply srn_op. intros x. apply end_strikeout_rn.
+  - apply srn_op. intros x. apply start_deco_rn.
+  - apply srn_op. intros x. apply end_deco_rn.
+  - apply srn_op. intros x. apply start_deco_rn.
+  - apply srn_op. intros x. apply end_deco_rn.
+  - intros src t. apply srn_op. intros x. apply image_rn.
+  - apply srn_op. apply start_block_rn.
+  - apply srn_pure. auto.
+  - apply srn_op. apply flush_rn.
+  - apply srn_op. apply new_line_hard_rn.
+  - intros n x y [<- Hx]. split; [reflexivity|]. unfold record_frag_start. split; [exact (proj1 Hx)|].
+    cbn [wrapping set_wrapping]. pose proof (get_wrapping_ovf x Hx) as Hg. revert Hg.
+    generalize (get_wrapping x). intros w Hw. exact Hw.
+  - intros x y p mn [<- Hx]. pose proof (width_minus_rn x p mn Hx) as H.
+    destruct (width_minus x p mn); cbn [rn rs] in *; auto; discriminate.
+  - intros u v w [<- [Ho _]]. split; [reflexivity|]. split; [exact Ho|exact I].
+  - intros x y u v f r [<- Hx] [<- Hu]. apply srn_res, append_rn; assumption.
+  - intros x y [<- _]. reflexivity.
+  - intros x y [<- _]. reflexivity.
+  - intros x y [<- _]. reflexivity.
+  - intros w. apply srn_op. intros x. apply hborder_rn.
+  - intros x y us vs [<- Hx] Huv. destruct (F2_SRN _ _ Huv) as [<- Hus]. apply srn_res, vert_rn; assumption.
+  - intros x y us vs [<- Hx] Huv. destruct (F2_SRN _ _ Huv) as [<- Hus]. apply srn_res, cols_rn; assumption.
+  - intros u v [<- _]. reflexivity.
+Qed.
+
+Lemma NI_fmt_links : forall links x, NI x -> NI (fmt_links x links).
+Proof.
+  assert (K1 : forall t cs x buf wl pos, NI x -> NI (fst (fst (fst (fl_chars x t cs buf wl pos))))).
+  { intros t. induction cs as [|c cs IH]; intros x buf wl pos H; cbn [fl_chars]; [exact H|].
+    destruct (swidth_ x <? pos + cw0 c); apply IH; [apply NI_add_line|]; exact H. }
+  assert (K2 : forall strs x wl pos, NI x -> NI (fst (fl_strings x strs wl pos))).
+  { induction strs as [|[str tg] strs IH]; intros x wl pos H; cbn [fl_strings]; [exact H|].
+    destruct (o_wrap_links (sopts x) && (swidth_ x <? pos + swidth (nl_to_space str))); [|apply IH, H].
+    pose proof (K1 [ADefault] (nl_to_space str) x [] wl pos H) as E.
+    destruct (fl_chars x [ADefault] (nl_to_space str) [] wl pos) as [[[s1 buf] wl1] pos1].
+    cbn [fst] in E. apply IH, E. }
+  induction links as [|l links IH]; intros x H; cbn [fmt_links]; [exact H|].
+  pose proof (K2 (tl_tagged_strings l) x tl_new 0 H) as E.
+  destruct (fl_strings x (tl_tagged_strings l) tl_new 0) as [s1 wl]. cbn [fst] in E.
+  apply IH, NI_add_line, E.
+Qed.
+
+(* MAIN THEOREM A2 (C11, fourth clause), whole renderer, for EVERY width (0 included), tree,
+   decorator: with allow_width_overflow the rendering is never TooNarrow, and neither is the
+   final flush of its result. *)
+Theorem c11_overflow_never_too_narrow_render d mw o width tree :
+  o_allow_overflow o = true ->
+  rn (fun s => sub_into_lines s <> TooNarrow /\ sub_into_string s <> TooNarrow)
+     (render_tree d mw o width tree).
+Proof.
+  intros Ho.
+  assert (S : rs MNtn SRN (render_tree d mw o width tree) (render_tree d mw o width tree)).
+  { apply (g_render_tree MNtn d mw SRN eq (fun _ => True) (SRN_ops d mw)).
+    - intros x y ls [<- Hx]. split; [reflexivity|apply NI_fmt_links, Hx].
+    - apply trel_refl; auto.
+    - split; [reflexivity|]. split; [exact Ho|exact I]. }
+  destruct (render_tree d mw o width tree) as [s| | |]; cbn [rs rn] in *; auto.
+  destruct S as [_ Hs]. pose proof (sub_into_lines_rn s Hs) as R. apply rn_ntn in R.
+  split; [exact R|]. unfold sub_into_string. destruct (sub_into_lines s); cbn [bind]; congruence.
+Qed.
+Print Assumptions c11_overflow_never_too_narrow_render.
+
+Corollary c11_overflow_render_not_too_narrow d mw o width tree :
+  o_allow_overflow o = true -> render_tree d mw o width tree <> TooNarrow.
+Proof. intros Ho. eapply rn_ntn, c11_overflow_never_too_narrow_render, Ho. Qed.
+Print Assumptions c11_overflow_render_not_too_narrow.
+
+(* through the routes: with allow_width_overflow and width >= 1 the routes are never TooNarrow
+   (width 0 is answered TooNarrow by render_with_context before anything is rendered) *)
+Section RoutesA2.
+  Variable inl : list (text * text) -> res (list styledecl).
+  Variable dr : list node -> res (list ruleset).
+
+  Theorem c11_routes_never_too_narrow c doc w tree :
+    c_overflow c = true -> w <> 0 -> to_render_tree inl dr c doc = Ok tree ->
+    lines_from_read inl dr c doc w <> TooNarrow /\ string_from_read inl dr c doc w <> TooNarrow.
+  Proof.
+    intros Ho Hw Ht. unfold lines_from_read, string_from_read. rewrite Ht. cbn [bind].
+    unfold render_with_context. destruct (N.eqb_spec w 0) as [E|_]; [contradiction|].
+    pose proof (c11_overflow_never_too_narrow_render (c_deco c) (c_min_wrap c) (render_options c) w tree Ho) as R.
+    destruct (render_tree (c_deco c) (c_min_wrap c) (render_options c) w tree) as [s| | |];
+      cbn [rn bind] in *; try contradiction; try (split; discriminate).
+    destruct R as [R1 R2]. split; [|exact R2].
+    destruct (sub_into_lines s); cbn [bind]; congruence.
+  Qed.
+End RoutesA2.
+Print Assumptions c11_routes_never_too_narrow.
+
+(* together with C01 (RenderTotal: Ok or TooNarrow under its decidable side conditions, which
+   exclude the Panic sites): with allow_width_overflow the rendering and its flush are ALWAYS Ok,
+   at every width below usize::MAX (for render_tree even at width 0) *)
+From H2T Require Proofs.RenderTotal.
+
+Corollary c11_overflow_always_ok d mw o width tree :
+  o_allow_overflow o = true -> width < usize_max -> RenderTotal.tree_wf d mw tree = true ->
+  exists s ls str, render_tree d mw o width tree = Ok s /\ sub_into_lines s = Ok ls /\
+                   sub_into_string s = Ok str.
+Proof.
+  intros Ho Hw Hwf.
+  pose proof (RenderTotal.c01_render_tree_total d mw o width tree Hw Hwf) as T.
+  pose proof (c11_overflow_never_too_narrow_render d mw o width tree Ho) as R.
+  destruct (render_tree d mw o width tree) as [s| | |]; cbn [rn] in R; try contradiction.
+  destruct T as [T1 T2], R as [R1 R2]. unfold RenderTotal.okish in *.
+  destruct (sub_into_lines s) as [ls| | |] eqn:E1; cbn [RenderTotal.okp] in T1; try contradiction;
+    try congruence.
+  destruct (sub_into_string s) as [str| | |] eqn:E2; cbn [RenderTotal.okp] in T2; try contradiction;
+    try congruence.
+  exists s, ls, str. auto.
+Qed.
+Print Assumptions c11_overflow_always_ok.
+
+Section RoutesA3.
+  Variable inl : list (text * text) -> res (list styledecl).
+  Variable dr : list node -> res (list ruleset).
+
+  Corollary c11_routes_always_ok c doc w tree :
+    c_overflow c = true -> 1 <= w -> w < usize_max ->
+    to_render_tree inl dr c doc = Ok tree ->
+    RenderTotal.tree_wf (c_deco c) (c_min_wrap c) tree = true ->
+    (exists r, lines_from_read inl dr c doc w = Ok r) /\
+    (exists r, string_from_read inl dr c doc w = Ok r).
+  Proof.
+    intros Ho H1 Hw Ht Hwf.
+    destruct (c11_overflow_always_ok (c_deco c) (c_min_wrap c) (render_options c) w tree Ho Hw Hwf)
+      as (s & ls & str & E1 & E2 & E3).
+    unfold lines_from_read, string_from_read, render_with_context. rewrite Ht. cbn [bind].
+    destruct (N.eqb_spec w 0) as [E|_]; [lia|]. rewrite E1. cbn [bind]. rewrite E2, E3. cbn [bind].
+    eauto.
+  Qed.
+End RoutesA3.
+Print Assumptions c11_routes_always_ok.
+
+(* example for the fourth clause: the block quote that is TooNarrow at width 2 without the flag *)
+Example exa_never_too_narrow :
+  o_allow_overflow (with_overflow exb_opts) = true /\
+  render_tree plain_deco 3 exb_opts 2 cexb_tree = TooNarrow /\
+  render_tree plain_deco 3 (with_overflow exb_opts) 2 cexb_tree <> TooNarrow /\
+  RenderTotal.tree_wf plain_deco 3 cexb_tree = true.
+Proof.
+  split; [reflexivity|]. split; [vm_compute; reflexivity|].
+  split; [apply c11_overflow_render_not_too_narrow; reflexivity|vm_compute; reflexivity].
+Qed.
+
+(* ---- the route theorems on a document (RenderTotal.ex_doc: paragraph, table with colspan and
+   a dropped tfoot, ordered list), CSS front end = CssParse: the same string at width 20 with
+   the flag (third clause); TooNarrow at width 2 without the flag, Ok with it (fourth) ---- *)
+From H2T Require CssParse.
+Notation exr_str c w :=
+  (string_from_read CssParse.inline_styles CssParse.doc_rules c RenderTotal.ex_doc w).
+Definition exr_out : text := match exr_str cfg_plain 20 with Ok t => t | _ => [] end.
+Example exr_ok_20 : exr_str cfg_plain 20 = Ok exr_out /\ (0 <? tlen exr_out) = true.
+Proof. split; vm_compute; reflexivity. Qed.
+Example exr_applies : exr_str (set_overflow cfg_plain) 20 = Ok exr_out.
+Proof. exact (c11_string_from_read CssParse.inline_styles CssParse.doc_rules cfg_plain RenderTotal.ex_doc 20 exr_out (proj1 exr_ok_20)). Qed.
+Definition exr_tree : rnode :=
+  match to_render_tree CssParse.inline_styles CssParse.doc_rules (set_overflow cfg_plain) RenderTotal.ex_doc with
+  | Ok t => t | _ => ex_n IBreak end.
+Example exr_tree_eq :
+  to_render_tree CssParse.inline_styles CssParse.doc_rules (set_overflow cfg_plain) RenderTotal.ex_doc = Ok exr_tree.
+Proof. vm_compute. reflexivity. Qed.
+Example exr_tree_wf :
+  RenderTotal.tree_wf (c_deco (set_overflow cfg_plain)) (c_min_wrap (set_overflow cfg_plain)) exr_tree = true.
+Proof. vm_compute. reflexivity. Qed.
+Example exr_width_2 :
+  exr_str cfg_plain 2 = TooNarrow /\ exists t, exr_str (set_overflow cfg_plain) 2 = Ok t.
+Proof.
+  split; [vm_compute; reflexivity|].
+  assert (L : 2 < usize_max) by (vm_compute; reflexivity).
+  assert (L1 : 1 <= 2) by lia.
+  exact (proj2 (c11_routes_always_ok CssParse.inline_styles CssParse.doc_rules (set_overflow cfg_plain)
+                   RenderTotal.ex_doc 2 exr_tree eq_refl L1 L exr_tree_eq exr_tree_wf)).
+Qed.
